@@ -124,6 +124,8 @@ class Run:
         self.abstractions = []
         self.input_types = {}
         self.decided = {}
+        self.decided_persist = {}
+        self.persistent = []   # constraints about input symbols that must survive the pop of a guarded (spec) region
         self._keep = []
         self.written = set()
 
@@ -134,7 +136,7 @@ class Run:
         return base if n == 0 else f"{base}!{n}"
 
     # -- constraints
-    def assume(self, t):
+    def assume(self, t, persist=False):
         t = simp(t) if not isinstance(t, bool) else z3.BoolVal(t)
         if is_true(t):
             return
@@ -142,6 +144,8 @@ class Run:
             raise PathEnd()
         self.pc.append(t)
         self.solver.add(t)
+        if persist:
+            self.persistent.append(t)
 
     def quick_feasible(self, ms=1500):
         """cheap feasibility probe: False only when z3 proves the path condition unsat within the budget"""
@@ -174,7 +178,7 @@ class Run:
             return True
         return r == z3.sat
 
-    def choose(self, options, label=""):
+    def choose(self, options, label="", persist=False):
         """options: list of (tag, cond or None). Returns index of the option taken on this path."""
         conds = [z3.BoolVal(True) if c is None else simp(c) for _t, c in options]
         pos = len(self.log)
@@ -187,10 +191,10 @@ class Run:
                 raise PathEnd()
         self.log.append([len(options), k, feas, label])
         self.trace.append(f"{label}={options[k][0]}")
-        self.assume(conds[k])
+        self.assume(conds[k], persist)
         return k
 
-    def decide(self, cond, label=""):
+    def decide(self, cond, label="", persist=False):
         c = simp(cond)
         if is_true(c):
             return True
@@ -199,8 +203,10 @@ class Run:
         key = c.get_id()
         if key in self.decided:
             return self.decided[key]
-        r = self.choose([("T", c), ("F", z3.Not(c))], label) == 0
+        r = self.choose([("T", c), ("F", z3.Not(c))], label, persist) == 0
         self.decided[key] = r
+        if persist:
+            self.decided_persist[key] = r
         self._keep.append(c)
         return r
 
